@@ -334,7 +334,7 @@ class SDRAMModule:
             tWTR  = self.ck_ns_to_cycles(self.get("tWTR")),
             tFAW  = None if self.get("tFAW") is None else self.ck_ns_to_cycles(self.get("tFAW")),
             tCCD  = None if self.get("tCCD") is None else self.ck_ns_to_cycles(self.get("tCCD")),
-            tRRD  = None if self.get("tRRD") is None else self.ck_ns_to_cycles(self.get("tRRD")),
+            tRRD  = None if self.get("tRRD") is None else self.ck_ns_to_cycles(self.get("tRRD"), ck_margin=True),
             tRC   = None if self.get("tRAS") is None else self.ck_ns_to_cycles(self.get("tRP") + self.get("tRAS")),
             tRAS  = None if self.get("tRAS") is None else self.ck_ns_to_cycles(self.get("tRAS")),
             tZQCS = None if self.get("tZQCS") is None else self.ck_ns_to_cycles(self.get("tZQCS"))
@@ -386,11 +386,14 @@ class SDRAMModule:
         # Minimum timings are rounded up, maximum intervals (tREFI) have to be rounded down.
         return floor(t/clk_period_ns) if round_down else ceil(t/clk_period_ns)
 
-    def ck_to_cycles(self, c):
+    def ck_to_cycles(self, c, margin=False):
+        # Commands of two controller cycles can sit on different phases: up to denom-1 DRAM clocks of
+        # the spacing are lost (same margin as the one added to timings given in ns).
+        c += (self.rate_frac.denom - 1) if (margin and c) else 0
         return ceil(c/self.rate_frac.denom)
 
-    def ck_ns_to_cycles(self, timing, **kwargs):
-        return max(self.ck_to_cycles(timing.ck), self.ns_to_cycles(timing.ns, **kwargs))
+    def ck_ns_to_cycles(self, timing, ck_margin=False, **kwargs):
+        return max(self.ck_to_cycles(timing.ck, margin=ck_margin), self.ns_to_cycles(timing.ns, **kwargs))
 
     @property
     def rate_frac(self):
